@@ -1187,7 +1187,7 @@ theorem applyB_inv (b : Breaker) (op : BOp) (h : BInv b) : BInv (applyB b op) :=
           · simp at hdis
           · exact h p hp hdis
         · simp only [hd, ht, if_true, if_false]; exact h
-      · simp only [hd, if_false]; exact h
+      · simp only [hd]; exact h
   | fail now a =>
     simp only [applyB, Breaker.recordFailure]
     intro p hp hd
